@@ -9,7 +9,7 @@
    Executable definitions only. *)
 From Coq Require Import List Bool NArith ZArith.
 From MV Require Import Base.Bytes Model.Strutils Model.WsUtf8 Model.DnsNames Model.DnsMessage
-  Model.Url Gen.DnsEnums Model.Contentviews.
+  Gen.DnsEnums Model.Contentviews.
 Import ListNotations.
 Local Open Scope N_scope.
 
@@ -30,6 +30,7 @@ Definition removesuffix (p s : bytes) : bytes := rev (removeprefix (rev p) (rev 
 
 (* int(s) for a str of plain ASCII decimal digits; None = ValueError.  (Python int() also
    accepts signs, blanks, underscores and non-ASCII digits: never produced by to_str.) *)
+Definition dec_value (ds : bytes) : N := fold_left (fun acc d => (acc * 10 + (bN d - 48))%N) ds 0%N.
 Definition parse_dec (s : bytes) : option N :=
   match s with
   | [] => None
